@@ -191,13 +191,13 @@ copy_vs(int32 infile_id, int32 outfile_id, int32 tag, /* tag of input VS */
      *-------------------------------------------------------------------------
      */
 
-    /* Set fields for reading */
-    if (VSsetfields(vdata_id, fieldname_list) == FAIL) {
-        printf("Error: cannot define fields for VS <%s>\n", path);
-        ret = -1;
-        goto out;
-    }
     if (n_records > 0) {
+        /* Set fields for reading (VSsetfields fails on a vdata without records: nothing to read) */
+        if (VSsetfields(vdata_id, fieldname_list) == FAIL) {
+            printf("Error: cannot define fields for VS <%s>\n", path);
+            ret = -1;
+            goto out;
+        }
         if ((buf = (uint8 *)malloc((size_t)(n_records * vdata_size))) == NULL) {
             printf("Failed to get memory for new VS <%s>\n", path);
             ret = -1;
